@@ -179,7 +179,8 @@ P["C07"] = dict(
 P["C08"] = dict(
     claimed=True,
     technique="static analysis: per-iteration typestate (written x counted) on the grid operators' loops",
-    decides=["R-MARGIN-PASSED: Ntv2Grid::at passes the caller's margin on to both the sub-grid search and the interpolation",
+    decides=["R-SUBGRID-STRICT: the walk down the NTv2 sub-grid tree tests strict containment; the caller's margin is used for the base grids' outer rim only",
+             "R-MARGIN-PASSED: Ntv2Grid::at passes the caller's margin on to both the sub-grid search and the interpolation",
              "R-GRID-MISS-IS-NAN: no result of grids_at is given a default (unwrap_or ...) in the grid operators",
              "R-NULL-ENDS-LIST: the branch that records the null grid leaves the grid-list loop (grids after `null` are ignored)",
              "R-GRID-INVARIANT reads guards merged into disjunctions and stored booleans (guards.py)",
